@@ -82,3 +82,11 @@ Proof.
     + intros x Hx. apply C_est_infl0. apply cnt_in. exact Hx.
     + intros x t Hx. apply C_content0. unfold cV. rewrite <- cnt_app. apply cnt_in. exact Hx.
 Qed.
+
+Lemma total_length s : InvC s ->
+  length (prec s) + length (gprec s) + length (unused s) + length (gprobe s) +
+  length (probe s) + length (infl s) = 2 * cap s.
+Proof.
+  intros H. apply Inv_InvC in H. pose proof (Permutation_length (I_perm _ H)) as Hl.
+  unfold all_entries in Hl. rewrite !app_length, seq_length in Hl. lia.
+Qed.
